@@ -239,21 +239,8 @@ def r4(repo, res):
                expected=f"exactly one written member matches the reader's {label} test (and none for another gene)",
                found=f"written {members}; matches {hits}; matches for other gene {other}",
                clause="for every gene contained in the archive", key=f"member:{label}")
-    # archive suffix
-    mn = repo.func("__main__::_genotype")
-    res.analysed(mn)
-    tar = [c_ for c_ in ast.walk(mn) if isinstance(c_, ast.Call) and call_name(c_) == "os.system"]
-    suffix_w = None
-    if tar and isinstance(tar[0].args[0], ast.JoinedStr):
-        txt = "".join(v.value if isinstance(v, ast.Constant) else "{}" for v in tar[0].args[0].values)
-        if ".tar.gz" in txt:
-            suffix_w = ".tar.gz"
-    readers_ok = all(any(isinstance(n, ast.Call) and isinstance(n.func, ast.Attribute) and n.func.attr == "endswith"
-                         and n.args and isinstance(n.args[0], ast.Constant) and n.args[0].value == ".tar.gz"
-                         for n in ast.walk(f)) for f in (rf, dg))
-    res.ob("C17.R4", mn, tar[0] if tar else mn, suffix_w == ".tar.gz" and readers_ok,
-           expected="archive written as <debug>.tar.gz and recognised by that suffix in detect_genome and _load_dump",
-           found=f"writer suffix {suffix_w}; readers test '.tar.gz': {readers_ok}", key="archive-suffix")
+    # (the archive suffix written by main() and tested by the two readers is decided end to end by R8)
+
 
 def r5(repo, res):
     """The replay goes through the same parameter/alias handling as the original run, and the restored neutral-depth
@@ -265,29 +252,32 @@ def r5(repo, res):
     gm = GenotypeModel(repo)
     given = {"gap": "0.2", "min_avg_coverage": "0.5", "display_format": "true", "debug_novel": "1", "debug_probe": "X"}
     typed = {"gap": 0.2, "min_avg_coverage": 0.5, "display_format": True, "debug_novel": True, "debug_probe": "X"}
-    for prof in ("exome", "wxs", "wes", "illumina", "pgrnseq-v2"):
-        for user_cn in (None, ["1", "1"]):
-            seen = {}
-            try:
-                for kind in ("sam", "dump"):
-                    k, v, trace, _ = gm.run(Scenario(kind=kind, avg_coverage=1.0, args=dict(output_file=None, profile_name=prof, cn_solution=user_cn),
-                                                     params=dict(given)))
-                    ev_ = events(trace, "estimate_cn")
-                    seen[kind] = (k, ev_[0][5] if ev_ else None)
-            except Unfoldable as e:
-                res.err("C17.R5", f"genotype() outside the folding language: {e}")
-                return
-            (k1, a1), (k2, a2) = seen["sam"], seen["dump"]
-            keys = sorted(set(typed) | {"min_coverage"})
-            same = a1 is not None and a2 is not None and a1["do_copy_number"] == a2["do_copy_number"] and all(
-                a1["profile"].get(x) == a2["profile"].get(x) for x in keys) and all(a2["profile"].get(x) == t for x, t in typed.items())
-            res.ob("C17.R5", g, g, k1 == k2 == "return" and same,
-                   expected=f"profile {prof!r}{', structure given' if user_cn else ''}: the replay runs the stages with the same copy-number switch, the same "
-                            "alias presets and the same (re-applied) parameters as the original run, although the reader restores the pickled profile and resets four parameters",
-                   found="same" if k1 == k2 == "return" and same else
-                         f"original: {k1} {None if a1 is None else dict(cn=a1['do_copy_number'], **{x: a1['profile'].get(x) for x in keys})}; "
-                         f"replay: {k2} {None if a2 is None else dict(cn=a2['do_copy_number'], **{x: a2['profile'].get(x) for x in keys})}",
-                   clause="as genotyping the original alignment file with the same parameters", key=f"alias-on-replay:{prof}{'|cn' if user_cn else ''}")
+    for prof, user_cn, params in [(p_, c_, given) for p_ in ("exome", "wxs", "wes", "illumina", "pgrnseq-v2") for c_ in (None, ["1", "1"])] + [
+            ("illumina", None, {}), ("exome", None, {}), ("pgrnseq-v2", ["1", "1"], {"gap": "0.2"})]:
+        seen = {}
+        try:
+            for kind in ("sam", "dump"):
+                k, v, trace, _ = gm.run(Scenario(kind=kind, avg_coverage=1.0 if "min_avg_coverage" in params else 40.0,
+                                                 args=dict(output_file=None, profile_name=prof, cn_solution=user_cn), params=dict(params)))
+                ev_ = events(trace, "estimate_cn")
+                seen[kind] = (k, ev_[0][5] if ev_ else None)
+        except Unfoldable as e:
+            res.err("C17.R5", f"genotype() outside the folding language: {e}")
+            return
+        (k1, a1), (k2, a2) = seen["sam"], seen["dump"]
+        keys = sorted(set(typed) | {"min_coverage"})
+        mine = {x: t for x, t in typed.items() if x in params}
+        same = a1 is not None and a2 is not None and a1["do_copy_number"] == a2["do_copy_number"] and all(
+            a1["profile"].get(x) == a2["profile"].get(x) for x in keys) and all(a2["profile"].get(x) == t for x, t in mine.items())
+        res.ob("C17.R5", g, g, k1 == k2 == "return" and same,
+               expected=f"profile {prof!r}{', structure given' if user_cn else ''}, parameters {params or 'none'}: the replay runs the stages with the same "
+                        "copy-number switch, the same alias presets and the same (re-applied) parameters as the original run, although the reader restores "
+                        "the pickled profile and resets four parameters",
+               found="same" if k1 == k2 == "return" and same else
+                     f"original: {k1} {None if a1 is None else dict(cn=a1['do_copy_number'], **{x: a1['profile'].get(x) for x in keys})}; "
+                     f"replay: {k2} {None if a2 is None else dict(cn=a2['do_copy_number'], **{x: a2['profile'].get(x) for x in keys})}",
+               clause="as genotyping the original alignment file with the same parameters",
+               key=f"alias-on-replay:{prof}{'|cn' if user_cn else ''}" + ("" if params is given else f"|{'+'.join(sorted(params)) or 'no-params'}"))
     # neutral-depth table: writer -> pickle -> consumer (the normalisation routine folded whole on the restored table)
     import checks.c07 as c07
 
@@ -516,7 +506,165 @@ def r7(repo, res):
                clause="genotyping the debug archive written for a run reproduces that run", key=f"round-trip:{label}")
 
 
+def r8(repo, res):
+    """The archive route end to end on a file-system model: main() with --debug runs the genotyping with a dump prefix inside a
+    scratch directory, then writes the run record and packs that directory as <debug>.tar.gz -- also when the run fails; the
+    files the dump writer creates under that prefix are, as archive members, found again by the genome detection and by the
+    dump reader of each gene in the archive (and of no other gene)."""
+    import copy
+
+    from checks._cli import fold_main
+    from sa.fold import Lifted, lift_module_helpers
+
+    mn = repo.func("__main__::_genotype")
+    argv = ["genotype", "-g", "G", "-p", "illumina", "--debug", "out/DBG", "/data/S1.x.bam"]
+    prefix = None
+    for label, raises, want_end in (("run succeeds", None, ("return", None)), ("gene fails with a program error", "AldyException", ("return", None)),
+                                    ("run crashes", "ValueError", None)):
+        try:
+            kind, val, calls = fold_main(repo, argv, genotype_raises=raises)
+        except Unfoldable as e:
+            res.err("C17.R8", f"main() with --debug outside the folding language: {e}")
+            return
+        gen = [c for c in calls if c[0] == "genotype"]
+        sysc = [c[1] for c in calls if c[0] == "system"]
+        dbg = gen[0][2].get("debug") if gen else None
+        order = [c[0] for c in calls if c[0] in ("genotype", "system")]
+        ok = (len(gen) == 1 and isinstance(dbg, str) and dbg.startswith("/scratch/T/") and dbg.rsplit("/", 1)[-1] == "S1.x"
+              and len(sysc) == 1 and "out/DBG.tar.gz" in sysc[0].split() and "/scratch/T" in sysc[0].split() and sysc[0].split()[:2] == ["tar", "czf"]
+              and order == ["genotype", "system"] and ("yaml", f"{dbg}.yml") in calls and (want_end is None or (kind, val) == want_end))
+        if want_end is None and not sysc and len(gen) == 1 and not [c for c in calls if c[0] == "yaml"]:
+            ok = True   # a run that crashes may leave no archive at all (the statement is about archives that were written)
+        prefix = prefix or (dbg if ok else None)
+        res.ob("C17.R8", mn, mn, ok,
+               expected=f"--debug out/DBG, {label}: genotype() runs once with a dump prefix <scratch>/S1.x, then the run record is written next to it and the "
+                        f"scratch directory is packed as out/DBG.tar.gz",
+               found=f"{kind} {val}; genotype(debug={dbg!r}); record {[c[1] for c in calls if c[0] == 'yaml']}; commands {sysc}",
+               clause="the debug archive written for a run", key=f"archive-written:{label}")
+    try:
+        kind, val, calls = fold_main(repo, [a for a in argv if a not in ("--debug", "out/DBG")])
+    except Unfoldable as e:
+        res.err("C17.R8", f"main() outside the folding language: {e}")
+        return
+    gen = [c for c in calls if c[0] == "genotype"]
+    res.ob("C17.R8", mn, mn, len(gen) == 1 and gen[0][2].get("debug") is None and not [c for c in calls if c[0] == "system"],
+           expected="without --debug: one genotype() call without dump prefix, no archive", found=f"{[(c[0], c[2].get('debug')) for c in gen]}",
+           clause="the debug archive written for a run", key="archive-written:no-debug")
+    if prefix is None:
+        return
+    # the dump writer's files for three genes of one run (one name a prefix / suffix of another), as members of the archive
+    wf = repo.func("sam::Sample._dump_alignments")
+    rf = repo.func("sam::Sample._load_dump")
+    dg = repo.func("sam::detect_genome")
+    init = repo.func("sam::Sample.__init__")
+    dc = find_calls(init, "_dump_alignments")
+    res.analysed(wf, rf, dg)
+    files = {}
+
+    class Handle:
+        _fold_ok = True
+        _fold_enter = True
+
+        def __init__(self, name):
+            self.name, self.text, self.obj = name, [], None
+
+        def __enter__(self):
+            return self
+
+        def read(self):
+            return "".join(self.text).encode("utf-8")
+
+    def opn(name, mode="r", *a, **k):
+        if isinstance(name, Handle):
+            return name
+        if "w" in mode:
+            files[name] = Handle(name)
+        if name not in files:
+            raise Raised("FileNotFoundError")
+        return files[name]
+
+    def pr(*a, sep=" ", end="\n", file=None):
+        file.text.append(sep.join(str(x) for x in a) + end)
+
+    def dump(o, fd):
+        fd.obj = copy.deepcopy(o)
+
+    class Tar:
+        _fold_ok = True
+
+        def __init__(self, members):
+            self.members = members
+
+        def getnames(self):
+            return list(self.members)
+
+        def extractfile(self, name):
+            if name not in self.members:
+                raise Raised("KeyError")
+            return self.members[name]
+
+    io = {"open": opn, "gzip.open": opn, "print": pr, "pickle.dump": dump, "pickle.load": lambda fd: copy.deepcopy(fd.obj),
+          "Counter": collections.Counter, "collections.Counter": collections.Counter, "os.path.abspath": lambda q: q, "os.path.exists": lambda q: False}
+    lift_module_helpers(repo.mod("sam").tree, io, None, {}, {})
+    genes = ["G", "G3", "XG"]
+    try:
+        for g in genes:
+            me = Obj(gene=Obj(name=g, genome="hg38"), profile=Obj(cn_region=None), name=f"S-{g}", _dump_cn={1: 1}, _fusion_counter={}, _indel_sites={},
+                     phases={})
+            pref = Evaluator({"debug": prefix, "gene": me.gene, "self": me}).ev(dc[0].args[0]) if dc else f"{prefix}.{g}"
+            Lifted(wf, funcs=io)(me, pref, {1: [(g, 1)]}, {})
+    except (Unfoldable, Raised) as e:
+        res.err("C17.R8", f"dump writer outside the folding language: {e}")
+        return
+    scratch = prefix.rsplit("/", 1)[0]
+    members = {"./" + n[len(scratch) + 1:]: h for n, h in files.items() if n.startswith(scratch + "/")}
+    members["./S1.x.log"] = Handle("log")
+    members["./S1.x.yml"] = Handle("yml")
+    members["."] = Handle("dir")
+    io["tarfile.open"] = lambda path, mode="r": Tar(members) if path == "out/DBG.tar.gz" else (_ for _ in ()).throw(Raised("FileNotFoundError"))
+    io["pysam.AlignmentFile"] = lambda *a, **k: (_ for _ in ()).throw(Raised("ValueError"))
+    io["pysam.VariantFile"] = lambda *a, **k: (_ for _ in ()).throw(Raised("ValueError"))
+    io["pysam.set_verbosity"] = lambda *a: None
+    try:
+        got = Lifted(dg, funcs=io)("out/DBG.tar.gz")
+    except Unfoldable as e:
+        res.err("C17.R8", f"detect_genome outside the folding language: {e}")
+        return
+    except Raised as e:
+        got = f"raises {e.kind}"
+    res.ob("C17.R8", dg, dg, got == ("dump", "hg38"),
+           expected="the archive packed from the writer's files is recognised as a dump of a run on hg38", found=f"{got}; members {sorted(members)}",
+           clause="genotyping the debug archive", key="archive-read:genome")
+    members_no = {k: v for k, v in members.items() if not k.endswith(".genome")}
+    io2 = dict(io, **{"tarfile.open": lambda path, mode="r": Tar(members_no)})
+    try:
+        got = Lifted(dg, funcs=io2)("out/DBG.tar.gz")
+    except Unfoldable as e:
+        res.err("C17.R8", f"detect_genome outside the folding language: {e}")
+        return
+    except Raised as e:
+        got = f"raises {e.kind}"
+    res.ob("C17.R8", dg, dg, got == "raises AldyException",
+           expected="an archive without genome marker is rejected as an invalid dump (not silently taken for another input kind)", found=str(got),
+           clause="genotyping the debug archive", key="archive-read:no-marker")
+    for g in genes + ["ABSENT"]:
+        me2 = Obj(gene=Obj(name=g), profile=None, name=None, _dump_cn=None, _fusion_counter=None, _indel_sites=None, phases=None)
+        try:
+            back = Lifted(rf, funcs=io)(me2, "out/DBG.tar.gz")
+            got = (me2.name, back[0] if isinstance(back, tuple) else back)
+        except Unfoldable as e:
+            res.err("C17.R8", f"dump reader outside the folding language: {e}")
+            return
+        except Raised as e:
+            got = f"raises {e.kind}"
+        want = "raises AldyException" if g == "ABSENT" else (f"S-{g}", {1: [(g, 1)]})
+        res.ob("C17.R8", rf, rf, got == want,
+               expected=f"gene {g}: " + ("not in the archive: rejected as invalid dump" if g == "ABSENT" else "the reader restores that gene's dump, not a sibling's"),
+               found=str(got), clause="for every gene contained in the archive", key=f"archive-read:{g}")
+
+
 def run(repo, res):
+    r8(repo, res)
     r5(repo, res)
     r6(repo, res)
     r7(repo, res)
@@ -582,6 +730,31 @@ MUTANTS = [
          old='    if profile_name in ["exome", "wxs", "wes"]:', new='    if kind != "dump" and profile_name in ["exome", "wxs", "wes"]:'),
     dict(name="R5 neutral table pickled as a plain dict (seeded C17_3 shape)", module="sam", expect="C17.R5",
          old="                    self._dump_cn,\n                    {p: Counter(q) for p, q in norm.items()},", new="                    dict(self._dump_cn),\n                    {p: Counter(q) for p, q in norm.items()},"),
+    dict(name="R8 debug run skipped", module="__main__", expect="C17.R8",
+         old="                run(prefix)\n", new="                pass\n"),
+    dict(name="benign: archive only when the run did not crash", module="__main__", kind="benign",
+         edits=[("            prefix = None\n            try:", "            prefix = None\n            done_ = False\n            try:"),
+                ("                run(prefix)\n", "                run(prefix)\n                done_ = True\n"),
+                ("                if prefix:\n", "                if prefix and done_:\n")]),
+    dict(name="R8 archive packed from the working directory", module="__main__", expect="C17.R8",
+         old='os.system(f"tar czf {args.debug}.tar.gz -C {tmp} .")', new='os.system(f"tar czf {args.debug}.tar.gz .")'),
+    dict(name="R8 archive named without suffix", module="__main__", expect=["C17.R8"],
+         old='os.system(f"tar czf {args.debug}.tar.gz -C {tmp} .")', new='os.system(f"tar czf {args.debug}.tgz -C {tmp} .")'),
+    dict(name="R8 dump prefix outside the packed directory", module="__main__", expect="C17.R8",
+         old='prefix = f"{tmp}/{os.path.splitext(os.path.basename(args.file))[0]}"', new='prefix = f"{os.path.splitext(args.file)[0]}"'),
+    dict(name="R8 run record not written", module="__main__", expect="C17.R8",
+         old="                        yaml.dump(common.json, f, default_flow_style=None)\n", new="                        pass\n"),
+    dict(name="R8 reader takes the last matching member's neighbour", module="sam", expect="C17.R8",
+         old="            data = tar.extractfile(f[0])\n            assert data", new="            data = tar.extractfile(tar.getnames()[0])\n            assert data"),
+    dict(name="R8 missing gene falls through to a sibling's dump", module="sam", expect="C17.R8",
+         old='            if not f:\n                raise AldyException("Invalid dump file")\n            log.debug("Found', new='            if not f:\n                f = [i for i in tar.getnames() if i.endswith(".dump")]\n            log.debug("Found'),
+    dict(name="R8 archive without marker taken as hg19", module="sam", expect="C17.R8",
+         old='                if not f:\n                    raise AldyException("Invalid dump file")\n                data = tar.extractfile(f[0])\n                if data:',
+         new='                if not f:\n                    return "dump", "hg19"\n                data = tar.extractfile(f[0])\n                if data:'),
+    dict(name="R8 marker compared without stripping the newline", module="sam", expect="C17.R8",
+         old='genome = data.read().decode("utf-8").strip()', new='genome = data.read().decode("utf-8")'),
+    dict(name="benign: archive command assembled separately", module="__main__", kind="benign",
+         old='os.system(f"tar czf {args.debug}.tar.gz -C {tmp} .")', new='cmd_ = f"tar czf {args.debug}.tar.gz -C {tmp} ."\n                    os.system(cmd_)'),
     # benign
     dict(name="benign: Counter via collections", module="sam", kind="benign", count=2,
          old="Counter(q)", new="Counter(list(q))"),
